@@ -296,6 +296,7 @@ func runCacheRound(rd *cacheRound) (cacheAPI, cacheRoundOut) {
 			// two further ticks: when the second one is accepted the pass triggered
 			// by everything before has finished
 			janTickFlush(1 << 20)
+			janQuiesce(1 << 14) // callbacks may be delivered by a helper goroutine of the library
 		}
 		vshim.SetMode(0)
 		for _, hs := range hists {
@@ -723,6 +724,7 @@ func closedScenario(r rng, res *result, idx int64) {
 	wg.Wait()
 	if tk != nil {
 		janTickFlush(1 << 20)
+		janQuiesce(1 << 14) // callbacks may be delivered by a helper goroutine of the library
 	}
 	vshim.SetMode(0)
 	runtime.GOMAXPROCS(old)
